@@ -78,7 +78,7 @@ func (in *Interp) chanSend(g *Goroutine, fr *Frame, ch *ChanV, v Value) {
 		in.goPanic("send on closed channel")
 	}
 	if len(ch.buf) < ch.cap || (ch.cap == 0 && len(ch.buf) == 0 && len(ch.sendq) == 0 && in.hasReceiver(ch, g)) {
-		ch.bufVC = append(ch.bufVC, in.raceSend(g, ch))
+		in.raceBufPush(ch, in.raceSend(g, ch))
 		ch.buf = append(ch.buf, v)
 		return
 	}
@@ -95,16 +95,13 @@ func (in *Interp) chanTryRecv(ch *ChanV) (Value, bool, bool) {
 	if len(ch.buf) > 0 {
 		v := ch.buf[0]
 		ch.buf = ch.buf[1:]
-		if len(ch.bufVC) > 0 {
-			in.race.lastRecv = ch.bufVC[0]
-			ch.bufVC = ch.bufVC[1:]
-		}
+		in.race.lastRecv = in.raceBufPop(ch)
 		in.race.lastOK = true
 		if len(ch.sendq) > 0 && len(ch.buf) < ch.cap {
 			sw := ch.sendq[0]
 			ch.sendq = ch.sendq[1:]
+			in.raceBufPush(ch, sw.vc)
 			ch.buf = append(ch.buf, sw.val)
-			ch.bufVC = append(ch.bufVC, sw.vc)
 			if in.raceActive(g) {
 				sw.ack = g.vc.clone()
 			}
@@ -243,7 +240,7 @@ func (in *Interp) doSelect(g *Goroutine, fr *Frame, x *ssa.Select) {
 		if ch.closed {
 			in.goPanic("send on closed channel")
 		}
-		ch.bufVC = append(ch.bufVC, in.raceSend(g, ch))
+		in.raceBufPush(ch, in.raceSend(g, ch))
 		ch.buf = append(ch.buf, in.get(fr, st.Send))
 		in.set(fr, x, mk(pick, false, -1, nil))
 		return
@@ -258,6 +255,18 @@ func (in *Interp) schedChoice(n int) int {
 	if n <= 1 {
 		return 0
 	}
+	if in.preemptBound > 0 {
+		// preemption-bounded mode: choices where the running goroutine had to stop anyway do not
+		// count as preemptions; they are explored while the vrt.Schedules budget lasts (first
+		// runnable goroutine afterwards), so that helper goroutines do not multiply the orders
+		if in.schedUsed >= in.schedules {
+			return 0
+		}
+		in.schedUsed++
+		d := in.decide(n, nil)
+		in.inputs = append(in.inputs, inputRec{kind: "choice", val: d, src: "engine", label: "sched"})
+		return d
+	}
 	if in.schedUsed >= in.schedules {
 		return 0
 	}
@@ -265,6 +274,23 @@ func (in *Interp) schedChoice(n int) int {
 	d := in.decide(n, nil)
 	in.inputs = append(in.inputs, inputRec{kind: "choice", val: d, src: "engine", label: "sched"})
 	return d
+}
+
+// preemptChoice decides whether the running goroutine is switched out although it could continue;
+// in preemption-bounded mode only a switch consumes budget (context bounding).
+func (in *Interp) preemptChoice() bool {
+	if in.preemptBound > 0 {
+		if in.preemptUsed >= in.preemptBound {
+			return false
+		}
+		d := in.decide(2, nil)
+		in.inputs = append(in.inputs, inputRec{kind: "choice", val: d, src: "engine", label: "preempt"})
+		if d == 1 {
+			in.preemptUsed++
+		}
+		return d == 1
+	}
+	return in.schedChoice(2) == 1
 }
 
 // ---------- scheduler ----------
@@ -328,8 +354,12 @@ func (in *Interp) runAll(main *Goroutine) {
 				}
 			}
 			cur = rs[0]
-			if len(rs) > 1 && !in.preemptLocks {
-				cur = rs[in.schedChoice(len(rs))]
+			if len(rs) > 1 && (!in.preemptLocks || in.preemptBound > 0) {
+				n := len(rs)
+				if in.preemptBound > 0 && rs[n-1].justYielded {
+					n-- // the goroutine that was just preempted does not continue right away
+				}
+				cur = rs[in.schedChoice(n)]
 			}
 		}
 		in.cur = cur
@@ -340,8 +370,10 @@ func (in *Interp) runAll(main *Goroutine) {
 				// a goroutine was spawned: scheduling point
 				nBefore = len(in.gs)
 				child := in.gs[len(in.gs)-1]
-				if in.schedUsed < in.schedules && !child.done {
-					if in.schedChoice(2) == 1 {
+				// (in preemption-bounded mode the parent runs on to its next lock acquisition or
+				// boundary yield, which is a preemption point anyway)
+				if in.preemptBound == 0 && in.schedUsed < in.schedules && !child.done {
+					if in.preemptChoice() {
 						cur = child
 						in.cur = cur
 					}
